@@ -18,6 +18,7 @@ import Nitime.Model.Num
 import Nitime.Model.Proto
 import Nitime.Model.C15Types
 import Nitime.Generated.SeriesCalls
+import Nitime.Generated.C18Opts
 import Nitime.Model.FiltFilt
 
 namespace Nitime.C18
@@ -150,6 +151,37 @@ def boxcarFilter (mUb : Nat) (mLb : Option Nat) (x : List K) : List K :=
     let lp := boxLowpass m x1
     let mu := mean lp
     (x1.zip lp).map fun (a, b) => a - b + mu
+
+/-! #### `boxcar_filter` on n-d input (`nitime/algorithms/filter.py`)
+
+`n = time_series.shape[-1]`; a 1-d input is wrapped into one row (`np.array([time_series])`) and unwrapped at the
+end, a 2-d input is filtered row by row (`for i in range(time_series.shape[0])`) and comes back with its shape; for
+more dimensions `time_series[i]` is itself 2-d and `np.hstack((boxcar_ones * time_series[i, 0], time_series[i]))`
+raises `ValueError` (operands of different dimensions / not broadcastable) in the first row — unless there is no
+row at all.  `n_iterations = 0` leaves `conv_s` unbound (`UnboundLocalError`) as soon as a row is filtered. -/
+
+inductive BoxErr where | valueError | unboundLocal | indexError
+  deriving DecidableEq, Repr
+
+/-- consecutive chunks of length `n` (the rows of a C-ordered 2-d array); `fuel` = number of rows -/
+def chunks {α : Type} (n : Nat) : Nat → List α → List (List α)
+  | 0, _ => []
+  | r + 1, l => l.take n :: chunks n r (l.drop n)
+
+/-- the lanes `boxcar_filter` iterates over, by the dimensions of the input -/
+def boxLanes {α : Type} (dims : List Nat) (x : List α) : Except BoxErr (List (List α)) :=
+  match dims with
+  | [] => .error .indexError                     -- `time_series.shape[-1]` of a 0-d array
+  | [_] => .ok [x]
+  | [r, n] => .ok (chunks n r x)
+  | r :: _ => if r = 0 then .ok [] else .error .valueError
+
+/-- `boxcar_filter(time_series, lb, ub, n_iterations)`: every lane through `boxcarFilter`, the shape kept
+(the result is the list of filtered lanes, in order) -/
+def boxcarND (iters mUb : Nat) (mLb : Option Nat) (dims : List Nat) (x : List K) : Except BoxErr (List (List K)) :=
+  match boxLanes dims x with
+  | .error e => .error e
+  | .ok ls => if iters = 0 ∧ ls ≠ [] then .error .unboundLocal else .ok (ls.map (boxcarFilter mUb mLb))
 end boxcar
 
 def ceilHalfInv (f : Float) : Nat := (Float.ceil (1 / (2 * f))).toUInt64.toNat
@@ -183,7 +215,30 @@ def methodAxis : String → Option AxisD
   | "iir" => siteAxis "FilterAnalyzer.filtfilt.0"
   | "filtered_fourier" => siteAxis "FilterAnalyzer.filtered_fourier.0"
   | "filtered_boxcar" => siteAxis "FilterAnalyzer.filtered_boxcar.0"
+  | "filtfilt" => siteAxis "FilterAnalyzer.filtfilt.0"     -- the public wrapper (the axis of `in_ts` when one is given)
   | _ => none
+
+/-! ### option handling, read off the GENERATED tables (`Generated/C18Opts.lean`, harness/translate_c18.py)
+
+The model functions above encode the option handling of the source: `ub : Option _` with `none ↦ 1` (fraction) or
+`Fs/2` is the `self.ub is not None` / `is None` test (never truthiness: an explicit `0.0` is an edge), `firBandFractions`
+divides by `Fs/2`, the boxcar driver line by `Fs`, `boxcarND` keeps `lb == 0 ↦ no high-pass`.  The tables below are the
+source text of exactly these fragments; `Props.ub_rule_all`, `lb_rule_all`, `boxcar_guards`, `in_ts_rule`,
+`option_flow` are DECIDED statements about them, so an edit of the source re-opens the obligation. -/
+open Nitime.Generated in
+/-- the constructor parameter that reaches argument `arg` (position or keyword) of `callee` inside `method`: the
+argument's source text must be `self.<attr>` for an attribute assigned `self.<attr> = <parameter>` in `__init__` -/
+def optionSource (method callee arg : String) : Option String :=
+  match C18Opts.callArgs.find? (fun r => r.1 == method && r.2.1 == callee && r.2.2.1 == arg) with
+  | none => none
+  | some r => (C18Opts.initFlow.find? fun p => "self." ++ p.1 == r.2.2.2).map (·.2)
+
+/-- the five optional parameters that are handed on to an external design / filter, and where they must arrive -/
+def optionSites : List (String × String × String) :=
+  [("fir", "signal.firwin", "window"), ("iir", "signal.iirdesign", "2"), ("iir", "signal.iirdesign", "3"),
+   ("iir", "signal.iirdesign", "ftype"), ("filtered_boxcar", "tsa.boxcar_filter", "n_iterations")]
+
+def optionFlow : List (Option String) := optionSites.map fun s => optionSource s.1 s.2.1 s.2.2
 
 -- ------------------------------------------------------------------ driver
 instance : NatCast Float := ⟨Nat.toFloat⟩
@@ -194,11 +249,20 @@ def optF (s : String) : Option (Option Float) :=
 
 def b2s (b : Bool) : String := if b then "1" else "0"
 
+/-- an integer recording (int16 / int32 / int64 / uint8 samples) as the filters see it: every sample embedded into
+binary64 (`Float.ofInt`, exact below 2^53) BEFORE any arithmetic — the filters never compute in the integer type -/
+def embedInts (l : List Int) : List Float := l.map Float.ofInt
+
+/-- series data on the protocol: hexadecimal binary64 values, or `i:` followed by decimal integers (integer dtypes) -/
+def parseData? (s : String) : Option (List Float) :=
+  if s.startsWith "i:" then ((Proto.splitList (s.drop 2).toString).mapM String.toInt?).map embedInts
+  else Proto.parseFloatList? s
+
 open Proto in
 def handle (args : List String) : String :=
   match args with
   | ["fourier", fs, lb, ub, x] =>
-    match parseFloat? fs, parseFloat? lb, optF ub, parseFloatList? x with
+    match parseFloat? fs, parseFloat? lb, optF ub, parseData? x with
     | some fs, some lb, some ub, some x =>
       "ok " ++ showFloatList (filteredFourier fs lb ub x)
     | _, _, _, _ => "bad-args"
@@ -209,7 +273,7 @@ def handle (args : List String) : String :=
       "ok " ++ showFloatList (filtfiltWrapper (FiltFilt.filtfilt b a zi p) x)
     | _, _, _, _, _ => "bad-args"
   | ["restoredc", x, y] =>
-    match parseFloatList? x, parseFloatList? y with
+    match parseData? x, parseFloatList? y with
     | some x, some y => "ok " ++ showFloatList (restoreDC (mean x) y)
     | _, _ => "bad-args"
   | ["firplan", fs, lb, ub, order, n] =>
@@ -236,11 +300,25 @@ def handle (args : List String) : String :=
       let ml := if l == 0 then none else some (ceilHalfInv l)
       "ok " ++ showFloatList (boxcarFilter (ceilHalfInv u) ml x)
     | _, _, _, _ => "bad-args"
+  | ["boxcarnd", dims, iters, lb, ub, x] =>
+    -- boxcar_filter(time_series.reshape(dims), lb, ub, n_iterations): lb, ub fractions of the sampling rate
+    match (dims.splitOn "x").mapM String.toNat?, iters.toNat?, parseFloat? lb, parseFloat? ub, parseData? x with
+    | some dims, some iters, some l, some u, some x =>
+      let ml := if l == 0 then none else some (ceilHalfInv l)
+      match boxcarND iters (ceilHalfInv u) ml dims x with
+      | .ok ls => "ok " ++ "x".intercalate (dims.map toString) ++ " " ++ showFloatList ls.flatten
+      | .error .valueError => "err ValueError"
+      | .error .unboundLocal => "err Other:UnboundLocalError"
+      | .error .indexError => "err IndexError"
+    | _, _, _, _, _ => "bad-args"
   | ["boxcarq", mub, mlb, x] =>
     match mub.toNat?, (if mlb = "none" then some none else mlb.toNat?.map some), (splitList x).mapM parseRat? with
     | some mub, some mlb, some x =>
       "ok " ++ joinList ((boxcarFilter mub mlb x).map showRat)
     | _, _, _ => "bad-args"
+  | ["optflow"] =>
+    "ok " ++ " ".intercalate ((optionSites.zip optionFlow).map fun (s, o) =>
+      (o.getD "?") ++ ">" ++ s.2.1 ++ "." ++ s.2.2)
   | ["axis", m] =>
     match methodAxis m with
     | some a => "ok " ++ b2s a.rate ++ " " ++ b2s a.t0 ++ " " ++ b2s a.unit
